@@ -556,6 +556,9 @@ pub fn synthetic_project(seed: u64) -> Project {
             format!("{} & {{ extra{}: string }}", names[rng.below(i)], i)
         } else if kind == 8 {
             format!("{{ only{}: string }}", i)
+        } else if rng.chance(1, 2) && i > 0 {
+            // a named nullable alias (used as a property type elsewhere)
+            format!("{} | null", names[rng.below(i)])
         } else {
             format!("Array<{} | string>", r(&mut rng))
         };
